@@ -194,3 +194,9 @@ class LoopModel:
 
     def m_add_signal_handler(self, interp, obj, args, kwargs, fr):
         return None
+
+    def m_run_in_executor(self, interp, obj, args, kwargs, fr):
+        # runs the callable in a worker thread; awaiting the result suspends the caller
+        interp.traces.setdefault("executor", []).append(tuple(args))
+        interp.yield_point(fr, "run_in_executor")
+        return None
